@@ -64,6 +64,9 @@ class Ob:
     timeout: int = 120  # per-condition CPU seconds
     path_timeout: int | None = None
     twin: bool = True
+    # concrete calls of the harness function replayed under plain CPython when CrossHair reports that the code under analysis is not
+    # deterministic between its path iterations (= it keeps state between calls, which CrossHair cannot explore): a failing one is the verdict
+    state_witness: list = field(default_factory=list)
     # direct kind
     call: str | None = None  # "module:function"
     kwargs: dict = field(default_factory=dict)
@@ -263,6 +266,14 @@ def run_ob_crosshair(ob: Ob):
         return res
     if status == "counterexample":
         if call is None:
+            if "NotDeterministic" in message and ob.state_witness:
+                for wcall in ob.state_witness:
+                    rep = replay_call(path, ob.func, wcall, params)
+                    if rep.get("ok") is False:
+                        res["cex"] = {"call": wcall, "replay": rep, "note": "CrossHair: execution differs between iterations (state kept between calls); concrete witness sequence fails"}
+                        res["verdict"] = "violated"
+                        res["finding_key"] = f"{ob.id}:{wcall}"
+                        return res
             res.update(verdict="inconclusive", reason="counterexample without call expression: " + message[:300])
             return res
         rep = replay_call(path, ob.func, call, params)
